@@ -91,13 +91,19 @@ def run(ctx: Ctx) -> None:
 
     # ---- U3 deletions -----------------------------------------------------------------------------------
     ctx.rule("U3", "'__delete__' as value removes the key, a dict carrying __delete__ removes the object, a list item carrying it removes that item; a root d2 carrying __delete__ yields an empty dict", 4)
-    o, h = do_update(lambda: HDict({"k": a, "keep": b}), lambda: HDict({"k": "__delete__"}))
-    ctx.check(o.kind == "return" and dict(h["d1"]) == {"keep": b}, "U3", "value '__delete__'", loc_u, "", f"{h['d1']!r} / {o.exc}")
-    o, h = do_update(lambda: HDict({"web": HDict({"p": a}), "keep": b}), lambda: HDict({"web": HDict({"__delete__": True})}))
-    ctx.check(o.kind == "return" and dict(h["d1"]) == {"keep": b}, "U3", "dict carrying __delete__", loc_u, "", f"{h['d1']!r} / {o.exc}")
-    o, h = do_update(lambda: HDict({"layers": [HDict({"name": a}), HDict({"name": b}), HDict({"name": c})]}), lambda: HDict({"layers": [None, HDict({"__delete__": True})]}))
-    got = [dict(x) for x in h["d1"]["layers"]] if o.kind == "return" else o.exc
-    ctx.check(got == [{"name": a}, {"name": c}], "U3", "list item carrying __delete__", loc_u, "", f"{got!r}")
+    # a deletion is not an overwrite: the three forms remove what they name in both overwrite modes, at the
+    # top level and inside a nested object
+    for ow in (True, False):
+        tag = "" if ow else " (overwrite=False)"
+        o, h = do_update(lambda: HDict({"k": a, "keep": b}), lambda: HDict({"k": "__delete__"}), ow)
+        ctx.check(o.kind == "return" and dict(h["d1"]) == {"keep": b}, "U3", "value '__delete__'" + tag, loc_u, "", f"update({{k, keep}}, {{k: '__delete__'}}, overwrite={ow}) leaves {h['d1']!r} / {o.exc}: the key named by the delete marker must go, whatever the overwrite mode")
+        o, h = do_update(lambda: HDict({"web": HDict({"p": a, "q": c}), "keep": b}), lambda: HDict({"web": HDict({"p": "__delete__"})}), ow)
+        ctx.check(o.kind == "return" and dict(h["d1"].get("web", {})) == {"q": c}, "U3", "value '__delete__' inside a nested object" + tag, loc_u, "", f"update({{web: {{p, q}}}}, {{web: {{p: '__delete__'}}}}, overwrite={ow}) leaves web = {h['d1'].get('web')!r} / {o.exc}")
+        o, h = do_update(lambda: HDict({"web": HDict({"p": a}), "keep": b}), lambda: HDict({"web": HDict({"__delete__": True})}), ow)
+        ctx.check(o.kind == "return" and dict(h["d1"]) == {"keep": b}, "U3", "dict carrying __delete__" + tag, loc_u, "", f"{h['d1']!r} / {o.exc}")
+        o, h = do_update(lambda: HDict({"layers": [HDict({"name": a}), HDict({"name": b}), HDict({"name": c})]}), lambda: HDict({"layers": [None, HDict({"__delete__": True})]}), ow)
+        got = [dict(x) for x in h["d1"]["layers"]] if o.kind == "return" else o.exc
+        ctx.check(got == [{"name": a}, {"name": c}], "U3", "list item carrying __delete__" + tag, loc_u, "", f"{got!r}")
     # positions in the patch list refer to the positions of d1's list, whatever is deleted before them
     X = V("X")
     cases = [
